@@ -704,4 +704,117 @@ func c09(c *core.Ctx) {
 		})
 		rT.Check(bad == "", f.Key+":under-createMu", f.Decl.Pos(), "lookup, in-flight lookup and registration under createMu", bad+" runs outside createMu: two creators can build two records for one key")
 	}
+
+	rI := c.Rule("C09.inflight", "one record object per key: the first Save publishes an in-flight record to the key index before it removes it from the in-flight tracker; CreateTreasure creates a record only after a key-index miss that follows the tracker miss (or the publisher runs under createMu); nothing but the publisher removes a record from the tracker (another caller may hold it and save it later)", 3)
+	{
+		keyIdx := p.MustField(pkgSwamp, "swamp", "beaconKey")
+		tracker := p.MustField(pkgSwamp, "swamp", "creatingTreasures")
+		onField := func(info *types.Info, call *ast.CallExpr, fld *types.Var, names ...string) bool {
+			fo := core.Callee(info, call)
+			if fo == nil || core.FieldOf(info, core.RecvExpr(call)) != fld {
+				return false
+			}
+			for _, n := range names {
+				if fo.Name() == n {
+					return true
+				}
+			}
+			return false
+		}
+		// publisher(s): functions that Add to the key index and Delete from the tracker
+		var publishers []*core.Func
+		for _, f := range p.FuncsIn(pkgSwamp) {
+			if f.Decl.Body == nil {
+				continue
+			}
+			info := f.Info()
+			var adds, dels []*ast.CallExpr
+			core.Calls(f.Decl.Body, true, func(call *ast.CallExpr) {
+				if onField(info, call, keyIdx, "Add") {
+					adds = append(adds, call)
+				}
+				if onField(info, call, tracker, "Delete", "LoadAndDelete", "CompareAndDelete", "Clear") {
+					dels = append(dels, call)
+				}
+			})
+			if len(dels) == 0 {
+				continue
+			}
+			c.Touch(f)
+			if len(adds) == 0 {
+				for _, d := range dels {
+					rI.Bad(f.Key+":creatingTreasures.Delete", d.Pos(), "an in-flight record is removed from the tracker by a function that does not publish it: a caller that obtained the same in-flight record earlier still writes to it, the next CreateTreasure builds a second record for the key, and one acknowledged update is lost")
+				}
+				continue
+			}
+			publishers = append(publishers, f)
+			fl := core.NewFlow(p, info, f.Decl.Body)
+			for _, d := range dels {
+				ld, ok := fl.Locate(d)
+				dom := false
+				for _, a := range adds {
+					if la, ok2 := fl.Locate(a); ok && ok2 && fl.Dominates(la, ld) {
+						dom = true
+					}
+				}
+				rI.Check(dom, f.Key+":publish-before-untrack", d.Pos(), "key index Add dominates the tracker Delete", "the record leaves the in-flight tracker before it is visible in the key index: a concurrent CreateTreasure misses both and builds a second record")
+			}
+		}
+		if len(publishers) == 0 {
+			rI.Bad(pkgSwamp+":publisher", token.NoPos, "no function publishes in-flight records (key index Add + tracker Delete)")
+		}
+		// creator
+		f := c.Fn(pkgSwamp + ".swamp.CreateTreasure")
+		info := f.Info()
+		fl := core.NewFlow(p, info, f.Decl.Body)
+		var gets []*ast.CallExpr
+		var load, mk *ast.CallExpr
+		core.Calls(f.Decl.Body, false, func(call *ast.CallExpr) {
+			switch {
+			case onField(info, call, keyIdx, "Get"):
+				gets = append(gets, call)
+			case onField(info, call, tracker, "Load"):
+				load = call
+			case core.IsWsCallTo(info, call, pkgTreasure+".New"):
+				mk = call
+			}
+		})
+		okCreate := false
+		if load != nil && mk != nil {
+			ll, lm := fl.MustLocate(load), fl.MustLocate(mk)
+			for _, g := range gets {
+				lg := fl.MustLocate(g)
+				if !(fl.Dominates(ll, lg) && ll != lg && fl.Dominates(lg, lm)) {
+					continue
+				}
+				// the creation is on the miss edge of this lookup
+				res := core.ErrObjOfCallAny(info, f.Decl.Body, g)
+				for _, ft := range fl.FactsAt(lm) {
+					if be, isBin := ft.Expr.(*ast.BinaryExpr); isBin && res != nil && core.ObjOf(info, be.X) == res && core.IsNilIdent(info, be.Y) {
+						if (be.Op == token.EQL) == ft.Truth {
+							okCreate = true
+						}
+					}
+				}
+			}
+		}
+		if !okCreate {
+			// alternative: every publisher holds createMu around Add and Delete
+			all := len(publishers) > 0
+			for _, pf := range publishers {
+				pfl := core.NewFlow(p, pf.Info(), pf.Decl.Body)
+				lk := pfl.LockAnalysis(nil)
+				core.Calls(pf.Decl.Body, false, func(call *ast.CallExpr) {
+					if onField(pf.Info(), call, keyIdx, "Add") || onField(pf.Info(), call, tracker, "Delete") {
+						if held, ok := lk.HeldAtNode(call); !ok || held["s.createMu"] != 2 {
+							all = false
+						}
+					}
+				})
+			}
+			okCreate = all
+		}
+		rI.Check(okCreate, f.Key+":recheck-after-tracker-miss", f.Decl.Pos(), "a record is created only after a key-index miss that follows the tracker miss", "CreateTreasure looks at the key index only before the tracker: a first Save that publishes (Add) and untracks (Delete) between the two lookups is missed by both, a second record object is built for the key and the writers' guarded updates no longer serialize (lost update)")
+
+	}
 }
